@@ -38,6 +38,7 @@ type BuildOpts struct {
 	Cpp    bool
 	NDJson bool
 	ASan   bool
+	Matlab bool // also generate MATLAB (read as text only: no interpreter in the sandbox)
 	// ExtraDriver: additional C++ driver features ("ops", "cf", ...)
 }
 
@@ -79,6 +80,9 @@ func Generate(p *model.Package, o BuildOpts) (*Built, error) {
 	}
 	if o.Cpp {
 		fmt.Fprintf(&m, "cpp:\n  sourcesOutputDir: ../out/cpp\n  generateHDF5: false\n  generateCMakeLists: false\n  generateNDJson: %v\n  overrideArrayHeader: verif_ndarray.h\n", o.NDJson)
+	}
+	if o.Matlab {
+		m.WriteString("matlab:\n  outputDir: ../out/m\n")
 	}
 	l := model.EmitLayout(p, model.EmitOptions{ExtraManifest: m.String()})
 	WriteLayout(root, l)
